@@ -138,7 +138,7 @@ def _case(draw, tier):
         if opts:
             alt = {"node": a["name"], "how": draw(st.sampled_from(opts))}
     history = [{"variant": draw(st.integers(0, 3)), "runner": draw(st.sampled_from(["sync", "async"])), "alt": alt is not None and draw(st.booleans())} for _ in range(nruns)]
-    lru_ops = draw(st.lists(st.tuples(st.sampled_from(["get", "set", "set"]), st.integers(0, 6)), max_size=40))
+    lru_ops = draw(st.lists(st.tuples(st.sampled_from(["get", "set", "set"]), st.integers(0, 6)), min_size=6, max_size=40))
     # raw disk entries: arbitrary payload / signature objects written behind DiskCache's back
     payload = st.one_of(st.binary(max_size=40), st.text(max_size=8), st.integers(), st.none(), st.just("PICKLE_OK"), st.just("PICKLE_GARBAGE"))
     sig = st.one_of(st.just("CORRECT"), st.just("ABSENT"), st.text(alphabet="0123456789abcdef", min_size=64, max_size=64), st.text(max_size=10), st.binary(max_size=8), st.integers())
@@ -297,16 +297,19 @@ def _check_lru(case):
     """InMemoryCache against the reference LRU on a drawn get/set sequence."""
     from hypergraph.cache import InMemoryCache
 
-    real, model = InMemoryCache(max_size=case["lru_size"]), ref.LRU(case["lru_size"])
-    for i, (op, k) in enumerate(case["lru_ops"]):
-        key = f"k{k}"
-        if op == "set":
-            real.set(key, ("v", k, i))
-            model.set(key, ("v", k, i))
-        else:
-            got, want = real.get(key), model.get(key)
-            if got[0] != want[0] or (got[0] and got[1] != want[1]):
-                raise Violation("c09.lru_model", f"InMemoryCache(max_size={case['lru_size']}) after {case['lru_ops'][:i + 1]}: get({key}) = {got}, reference LRU {want}", what="hit" if got[0] else "miss")
+    ops0 = [tuple(x) for x in case["lru_ops"]]
+    # the drawn sequence, its reverse, and the sequence replayed against every capacity 1..6 (cheap, deterministic)
+    for size, ops in [(case["lru_size"], ops0), (case["lru_size"], ops0[::-1])] + [(sz, ops0) for sz in range(1, 7) if sz != case["lru_size"]]:
+        real, model = InMemoryCache(max_size=size), ref.LRU(size)
+        for i, (op, k) in enumerate(ops):
+            key = f"k{k}"
+            if op == "set":
+                real.set(key, ("v", k, i))
+                model.set(key, ("v", k, i))
+            else:
+                got, want = real.get(key), model.get(key)
+                if got[0] != want[0] or (got[0] and got[1] != want[1]):
+                    raise Violation("c09.lru_model", f"InMemoryCache(max_size={size}) after {ops[:i + 1]}: get({key}) = {got}, reference LRU {want}", what="hit" if got[0] else "miss")
 
 
 def _values(g, variant):
